@@ -122,17 +122,22 @@ def _make(name, scenario):
         w._current_params["X"] = old_x
         w._current_params["T"] = old_t
         w._current_params["Q"] = old_q
-        message = text.format(*SAMPLES)
-        message2 = text.format(*SAMPLES2)
         old_pat, had_float = pw_mod.VALUE_PATTERN, hasattr(pw_mod, "float")
         if MODE.symbolic:
+            message = text.format(*SAMPLES)
+            message2 = text.format(*SAMPLES2)
             table = dict(zip(SAMPLES, vals))
             table.update(zip(SAMPLES2, vals2))
             pw_mod.VALUE_PATTERN = PatternShim(old_pat, table)
             pw_mod.float = _float_shim
         else:
-            vals = [float(s) for s in SAMPLES]
-            vals2 = [float(s) for s in SAMPLES2]
+            # concrete replay: the report carries the solver's values as plain decimals
+            r1 = [f"{v:.6f}" for v in vals]
+            r2 = [f"{v:.6f}" for v in vals2]
+            message, message2 = text.format(*r1), text.format(*r2)
+            vals, vals2 = [float(x) for x in r1], [float(x) for x in r2]
+            old_x, old_t, old_q = round(old_x, 6), round(old_t, 6), round(old_q, 6)
+            w._current_params["X"], w._current_params["T"], w._current_params["Q"] = old_x, old_t, old_q
         try:
             if scenario == "after-unrelated":
                 w._on_device_message("echo:busy: processing")
